@@ -890,6 +890,27 @@ def _always_reporting_fns(fx):
                 sends.append(bi)
         if sends and cfg.returns and cfg.passes_through(sends, 0, cfg.returns):
             out.add(p)
+            continue
+        # `report_only(&result)`: sends the report when there is something to report, else answers Ok: the only
+        # failure it can return is that of the send
+        if sends and RESULT_RE.match(f.locals[0]["ty"]):
+            rl = ret_locals(f)
+            only = True
+            for bi, b in enumerate(f.blocks):
+                if cfg.cleanup[bi]:
+                    continue
+                for s_ in b["stmts"]:
+                    rv = s_["rv"]
+                    if s_["lhs"]["l"] in rl and not s_["lhs"].get("p") and rv["k"] == "agg" and \
+                            rv.get("adt") == "core::result::Result" and rv.get("variant") == "Err":
+                        only = False
+                t = b["term"]
+                if t["k"] == "call" and not t["dest"].get("p") and t["dest"]["l"] in rl and bi not in sends:
+                    o = callee_orig(t)
+                    if o not in (TRY_BRANCH, FROM_RESIDUAL) and o not in ERR_PRESERVING:
+                        only = False
+            if only:
+                out.add(p)
     return out
 
 
